@@ -544,7 +544,13 @@ def ordering_typing(rep, prog, qnames):
             rep.ok("INDEX.ordering", fwhere(f), "the ordering is only iterated / reversed / passed to sort(L, order) or indexed by positions")
 
 
-def extension_rules(rep, prog):
+def extension_rules(rep, prog, pipeline=True):
+    if pipeline:
+        pipeline_rules(rep, prog)
+    search_rules(rep, prog)
+
+
+def pipeline_rules(rep, prog):
     q = U + "pdag_to_cpdag"
     f = need(prog, q)
     S = Sym(prog)
@@ -556,6 +562,11 @@ def extension_rules(rep, prog):
     ok = len(calls) == 1 and not handled and not calls[0].path and T(summ.ret) == ("call", U + "dag_to_cpdag", (ext_,), (("G", ext_),))
     (rep.decide if handled else rep.check)("EXTENSION.pipeline", ok, fwhere(f), "pdag_to_cpdag = dag_to_cpdag(pdag_to_dag(pdag)); the ValueError of the extension search propagates",
               "pdag_to_cpdag swallows the ValueError or does not complete the extension it found")
+
+
+def search_rules(rep, prog):
+    """the consistent-extension search pdag_to_dag: one ValueError exit, the local matrix and the list of real node names shrink together, the
+    removed sink's undirected edges are oriented towards it under real names (shared with C09)"""
     q2 = U + "pdag_to_dag"
     f2 = need(prog, q2)
     S2 = Sym(prog)
